@@ -195,6 +195,15 @@ def _unit_task(task):
                                 part.violation(sig + ":object does not carry what was asked", {"object": repr(s), "category": s.GetCategory()})
 
                         _family(part, sig + ":Scalar", scalar_forms(v, u, c, default), chk)
+                        if default and v == VALUES[0]:
+                            # the unit requested with a label of its own (no category) in between: the forms that let
+                            # the unit pick its category still build the caption-less object
+                            try:
+                                ObtainQuantity(u, unknown_unit_caption="as read from the file")
+                            except Exception:
+                                pass
+                            _family(part, sig + ":Scalar after ObtainQuantity(u, unknown_unit_caption=...)", scalar_forms(v, u, c, default), chk)
+                            _family(part, sig + ":Array after ObtainQuantity(u, unknown_unit_caption=...)", array_forms("list", [v, v], u, c, default))
                         if v == VALUES[0] or thorough:
                             _family(part, sig + ":FractionScalar", fraction_forms(v, u, c, default))
                     # the value may arrive as any python / numpy number: same object, and repr still evaluates back
